@@ -66,7 +66,7 @@ Proof.
     match goal with |- context [k ?X] => assert (G1 : Good X) end.
     { apply auth_set_good; auto. }
     match goal with |- context [k ?X] => specialize (Hk X G1); destruct (k X) eqn:EK end; cbn in *.
-    + apply resume_r_good. exact Hk.
+    + destruct (pending _); [apply resume_r_good|]; exact Hk.
     + exact Hk.
     + exact Hk.
 Qed.
